@@ -389,14 +389,17 @@ _mtbl_decompress_zstd(
 	size_t *output_size)
 {
 	size_t ret = 0;
+	unsigned long long content_size;
 
 	if (input_size > INT_MAX)
 		return (mtbl_res_failure);
 
-	*output_size = (size_t) ZSTD_getFrameContentSize(input, input_size);
-	if (*output_size <= 0)
+	content_size = ZSTD_getFrameContentSize(input, input_size);
+	if (content_size == ZSTD_CONTENTSIZE_ERROR ||
+	    content_size == ZSTD_CONTENTSIZE_UNKNOWN)
 		return (mtbl_res_failure);
 
+	*output_size = (size_t) content_size;
 	*output = my_malloc(*output_size);
 
 	ret = ZSTD_decompress(
